@@ -224,6 +224,7 @@ def impl_run(case):
                     kw["cutoff"] = float(F(rc["cutoff"]))
                 if rc.get("backend"):
                     kw["backend"] = rc["backend"]
+                kw.update(rc.get("kwargs") or {})
                 if rc.get("inputs"):
                     kw["inputs"] = {k: np.array([[float(F(x)) for x in row] for row in v]) if v and isinstance(v[0], list)
                                     else np.array([float(F(x)) for x in v]) for k, v in rc["inputs"].items()}
